@@ -11,7 +11,7 @@ from ..universe import make_event, delegation_tag, PK, SK, compute_id, _sign
 
 ID = "C03"
 LEVEL = "model_checking"
-ASSUMPTIONS = ["see C09; default validator list (is_signed) as shipped; the strict reference verifies BIP-340 with coincurve and hashes the "
+ASSUMPTIONS = ["real nostr_relay code imported from /repo's working tree, driven through web.start_client / the storage API; SQLite runs for real behind a same-thread connection shim (bound to real aiosqlite by C06's conformance cases); LMDB is an in-memory double (bound to the real liblmdb by C10's conformance cases), msgpack is pip's pure-python codec; asyncio runs on a controlled virtual-time loop; default validator list (is_signed) as shipped; the strict reference verifies BIP-340 with coincurve and hashes the "
                "stdlib-JSON canonical serialisation of the fields exactly as submitted (a kind of \"1\" or 1.0 is not the integer 1)"]
 CHUNK = 1
 
